@@ -369,7 +369,7 @@ Definition end_code (tl:tailk) (cur:frame) (lastbf:bool) : list tstmt :=
   match tl with
   | TlPlain => if lastbf then [] else close_scope cur
   | TlRepeat c => [TUntil c (if lastbf then [] else close_scope cur)]
-  | TlCase true => []                    (* last statement is `fallthrough` (is_breakflow): no close, no break *)
+  | TlCase true => close_scope cur       (* `fallthrough`: visitors.Fallthrough closes the case scope, then falls into the next case; no break *)
   | TlCase false => if lastbf then [] else close_scope cur ++ [TBreak]
   end.
 
